@@ -14,7 +14,7 @@ SOURCES = [('param/parameters.py', 'Time'), ('param/parameters.py', 'Dynamic'),
            ('param/parameterized.py', 'Parameters.force_new_dynamic_value'),
            ('param/parameterized.py', 'Parameters._instantiate_param'),
            ('numbergen/__init__.py', 'Hash'), ('numbergen/__init__.py', 'TimeAwareRandomState'),
-           ('numbergen/__init__.py', 'RandomDistribution'), ('numbergen/__init__.py', 'TimeAware')]
+           ('numbergen/__init__.py', 'RandomDistribution'), ('numbergen/__init__.py', 'TimeAware'), ('numbergen/__init__.py', 'TimeSampledFn')]
 BUDGET_S = {'quick': 45, 'thorough': 400}
 EXHAUSTIVE = {'quick': False, 'thorough': False}
 TRUSTED = [
@@ -44,9 +44,9 @@ RULE = ('directed prefix (time -1 as first read = regression of the repaired cac
         'generators with memory, generators whose k-th call raises (StopIteration swallowed by an enclosing context, '
         'KeyError ending the history) followed by more reads at the same time, forced values, nested contexts left normally / by StopIteration / by KeyError, push/pop, assignments, new '
         'instances) over 1-4 parameters (Dynamic and Number), time-dependent generators with 3 names x 3 seeds x 3 '
-        'distributions, counters and seeded streams. non-trivial = at least one oracle conclusion checked and one '
+        'distributions, TimeSampledFn over them (periods 1-6, every offset), counters and seeded streams. non-trivial = at least one oracle conclusion checked and one '
         'value read from a time-dependent generator; distinct = distinct canonical case')
-COVERAGE_TARGETS = ['read:td', 'read:st', 'read:const', 'read:raised:StopIteration', 'read:raised:KeyError',
+COVERAGE_TARGETS = ['read:td', 'read:st', 'read:sm', 'force:sm', 'inspect:sm', 'read:const', 'read:raised:StopIteration', 'read:raised:KeyError',
                     'force:raised:StopIteration',
                     'inspect:td', 'inspect:st', 'force:td', 'force:st', 'enter', 'exit', 'exit:raised:KeyError',
                     'exit:raised:IndexError', 'push', 'pop', 'pop:raised:IndexError', 'raise:raised:StopIteration',
@@ -68,12 +68,15 @@ class _Counter:
     def __init__(self, sid, fail=None):
         self.sid = sid
         self.k = 0
+        self.n = 0
         self.fail = fail
 
     def __call__(self):
+        n = self.n
+        self.n = n + 1
+        if self.fail and self.fail[0] == n:
+            raise _EXC[self.fail[1]]('generator fault')      # before anything is produced
         self.k += 1
-        if self.fail and self.fail[0] == self.k - 1:
-            raise _EXC[self.fail[1]]('generator fault')
         return self.k
 
 
@@ -81,16 +84,15 @@ _FLAKY = {}
 
 
 def _flaky(cls):
-    """subclass of a numbergen class whose n-th call (0-based) raises after doing its work
-    (so that the position in a random stream stays in step with the number of calls)"""
+    """subclass of a numbergen class whose n-th call (0-based) raises before drawing anything
+    (the state of its random stream is untouched by the failed call)"""
     if cls not in _FLAKY:
         def __call__(self):
             n = self._calls
             self._calls = n + 1
-            v = cls.__call__(self)
             if self._fail and self._fail[0] == n:
                 raise _EXC[self._fail[1]]('generator fault')
-            return v
+            return cls.__call__(self)
         _FLAKY[cls] = type('Flaky' + cls.__name__, (cls,), {'__call__': __call__, '_calls': 0, '_fail': None})
     return _FLAKY[cls]
 
@@ -136,6 +138,10 @@ class _Run:
     def kind(self, g):
         if isinstance(g, _Counter):
             return ['st', g.sid]
+        if isinstance(g, self.ng.TimeSampledFn):
+            f = g.fn
+            sfx = str(f.seed)
+            return ['sm', f._hashfn.name[:-len(sfx)], f.seed, int(g.period), int(g.offset)]
         if g.time_dependent:
             sfx = str(g.seed)
             hn = g._hashfn.name
@@ -167,10 +173,15 @@ class _Run:
                 raise _Malformed()
             return self.reg[src['existing']]
         k = src['fresh']
-        if k[0] == 'td' and not self.case['dynTD']:
+        if k[0] in ('td', 'sm') and not self.case['dynTD']:
             raise _Malformed()      # numbergen refuses: Dynamic parameters are ignoring time
         fail = src.get('fail')
-        if k[0] == 'td':
+        if k[0] == 'sm':
+            # samples a time-dependent distribution every `period`, shifted by `offset` (visits the sample
+            # time inside `with time_fn`)
+            cls = getattr(self.ng, _DIST.get(k[1][:1], 'UniformRandom'))
+            g = self.ng.TimeSampledFn(fn=cls(name=k[1], seed=k[2], time_dependent=True), period=k[3], offset=k[4])
+        elif k[0] == 'td':
             cls = getattr(self.ng, _DIST.get(k[1][:1], 'UniformRandom'))
             g = (_flaky(cls) if fail else cls)(name=k[1], seed=k[2], time_dependent=True)
         elif k[1] % 2 == 0:
@@ -322,8 +333,9 @@ def compare(impl, model):
                 return f'{path}: impl {a!r} vs model {b!r}'
             key = b[1]
             val = (a[1], a[2])
-            parts = key.split('|')
-            if parts[0] == 'st' and int(parts[1]) % 2 == 0 and val != (int(parts[2]) + 1, 1):
+            origin, _, k = key.rpartition('#')
+            parts = origin.split('|')
+            if parts[0] == 'st' and int(parts[1]) % 2 == 0 and val != (int(k) + 1, 1):
                 return f'{path}: counter value impl {a!r} vs model {b!r}'
             if table.setdefault(key, val) != val:
                 return f'{path}: {key} was {table[key]!r}, now {val!r}'
@@ -430,6 +442,16 @@ def _directed():
     yield _mk([_p('dynamic', flaky(1, 'KeyError'))], [T(0), R(-1, 0), T(1), R(-1, 0), R(-1, 0)])
     yield _mk([_p('dynamic', dict(_st(2), fail=[0, 'StopIteration']))], [CTX(R(-1, 0)), R(-1, 0), R(-1, 0), T(1),
                                                                        R(-1, 0)], dynTD=False)
+    # TimeSampledFn: the value is held between sample points; evaluating it visits the sample time inside a
+    # time context and must leave the clock exactly where it was (also with a non-zero offset)
+    def sm(period, offset, name='g', seed=3):
+        return {'fresh': ['sm', name, seed, period, offset]}
+    smp = [_p('dynamic', sm(3, 1)), _p('number', sm(4, 0)), _p('dynamic', _td()), _p('dynamic', sm(5, 2, 'n', 0))]
+    yield _mk(smp, [NEW] + [x for t in (0, 1, 2, 3, 4, 5, 8, -1, -4, 300, 2, 2) for x in
+                            (T(t), R(0, 0), R(0, 0), R(0, 1), R(0, 2), R(0, 3), I(0, 0), F(0, 0), R(-1, 0))])
+    yield _mk(smp, [NEW, T(7), {'op': 'setStep', 's': 2}, {'op': 'setUntil', 'u': 40}, R(0, 0), R(0, 3),
+                    CTX(T(9), R(0, 0), CTX({'op': 'advance', 'd': 4}, F(0, 3), R(0, 1)), R(0, 0)), R(0, 0),
+                    {'op': 'push', 'i': 0}, T(11), R(0, 0), R(0, 3), {'op': 'pop', 'i': 0}, I(0, 0), R(0, 0)])
     # forward / backward / repeated, two instances, class-level
     yield _mk(two, [NEW, NEW] + [x for t in (0, 1, 2, 1, 0, 5, 0, -2, 3, -2, 2, 2 ** 32 + 1, 1)
                                  for x in (T(t), R(0, 0), R(1, 0), R(-1, 0), R(0, 1), R(0, 1))])
@@ -508,6 +530,9 @@ def _random_case(rng):
         if r < 0.25:
             return {'const': rng.randint(-3, 9)}
         g = _td(rng.choice(names), rng.choice(seeds)) if dynTD and r < 0.8 else _st(rng.randint(0, 3))
+        if dynTD and r < 0.8 and rng.random() < 0.2:
+            period = rng.randint(1, 6)
+            return {'fresh': ['sm', g['fresh'][1], g['fresh'][2], period, rng.randrange(period)]}
         if rng.random() < 0.2:
             g = dict(g, fail=[rng.randint(0, 4), 'StopIteration' if rng.random() < 0.8 else 'KeyError'])
         return g
